@@ -10,11 +10,11 @@
      d   data                              'cV_m
    signal space:  post_cov_inv = Rh N^-1 R + S^-1 (=: A),  j = Rh N^-1 d,  mean = A^-1 j
    data space:    post_dspace_cov_inv = R S Rh + N (=: B),                 mean = S Rh B^-1 d      *)
-From mathcomp Require Import ssreflect ssrfun ssrbool eqtype ssrnat seq fintype bigop ssralg ssrnum matrix mxalgebra.
+From mathcomp Require Import ssreflect ssrfun ssrbool eqtype ssrnat seq fintype bigop order ssralg ssrnum matrix mxalgebra ssrAC.
 Set Implicit Arguments.
 Unset Strict Implicit.
 Unset Printing Implicit Defensive.
-Import GRing.Theory.
+Import GRing.Theory Order.TTheory Num.Theory.
 Local Open Scope ring_scope.
 
 Section WienerGeneral.
@@ -183,6 +183,19 @@ rewrite /A /curv /Rh linearD /= trmx1 !trmx_mul trmxK Nsym.
 by rewrite !mulmxA.
 Qed.
 
+Lemma ac8 (V : zmodType) (a b c q p u v w : V) :
+  (a + (b + c) + q) + (p + (u + v) + w) = a + p + ((c + v) + (b + u)) + (q + w).
+Proof.
+by rewrite [LHS](AC (((1*2)*1)*((1*2)*1)) (((1*5)*((3*7)*(2*6)))*(4*8))).
+Qed.
+
+Lemma quad_expand k (M : 'M[F]_k) (x y : 'cV[F]_k) :
+  (x + y)^T *m M *m (x + y) = x^T *m M *m x + (x^T *m M *m y + y^T *m M *m x) + y^T *m M *m y.
+Proof.
+rewrite [(x + y)^T]linearD /= !mulmxDl !mulmxDr.
+by rewrite [LHS](AC ((1*1)*(1*1)) ((1*(2*3))*4)).
+Qed.
+
 (* exact Taylor expansion: value, gradient (`grad`) and Hessian (`curv`) *)
 Lemma ham2_expand d s t :
   ham2 d (s + t) = ham2 d s + (t^T *m grad R Rh N d s + (grad R Rh N d s)^T *m t) + t^T *m A *m t.
@@ -191,15 +204,13 @@ rewrite /ham2 /grad /A /curv -/Rh.
 set Ni := invmx N.
 have -> : R *m (s + t) - d = (R *m s - d) + R *m t by rewrite mulmxDr addrAC.
 set e := R *m s - d.
-rewrite !linearD /= !mulmxDl !mulmxDr !trmx_mul /Rh trmxK Nsym -/Ni !mul1mx !mulmxA.
-rewrite -!addrA; congr (_ + _).
-rewrite [X in _ = X]addrCA; congr (_ + _).
-rewrite [X in _ = _ + (_ + X)]addrCA.
-rewrite !addrA.
-do 2!(rewrite -!addrA; rewrite [X in _ = X]addrCA; congr (_ + _); rewrite ?addrA).
-rewrite -!addrA.
-rewrite [X in X = _]addrCA; congr (_ + _).
-by rewrite addrCA.
+rewrite quad_expand.
+have -> : (s + t)^T *m (s + t) = s^T *m s + (s^T *m t + t^T *m s) + t^T *m t.
+  by rewrite -[X in X *m (s + t)]mulmx1 quad_expand !mulmx1.
+rewrite ac8; congr (_ + _ + (_ + _) + _).
+- by rewrite mulmxDr /Rh trmx_mul !mulmxA.
+- by rewrite [(_ + s)^T]linearD /= mulmxDl !trmx_mul /Rh trmxK Nsym !mulmxA.
+- by rewrite mulmxDr mulmx1 mulmxDl /Rh trmx_mul !mulmxA.
 Qed.
 
 (* completing the square: around the posterior mean the linear term vanishes, i.e. the posterior
@@ -222,13 +233,13 @@ Section Ordered.
 Variable F : realFieldType.
 Variables m n : nat.
 Variables (R : 'M[F]_(m,n)) (N : 'M[F]_m).
-Hypothesis Npsd : forall y : 'rV[F]_m, 0 <= (y *m invmx N *m y^T) 0 0.
+Hypothesis Npsd : forall y : 'rV[F]_m, 0 <= (y *m invmx N *m y^T) ord0 ord0.
 
-Lemma sqnorm_eq0 (x : 'rV[F]_n) : (x *m x^T) 0 0 = 0 -> x = 0.
+Lemma sqnorm_eq0 (x : 'rV[F]_n) : (x *m x^T) ord0 ord0 = 0 -> x = 0.
 Proof.
 rewrite mxE => H.
-have H0 : forall i, i \in index_enum (ordinal_finType n) -> x 0 i * x^T i 0 = 0.
-  have := @Num.Theory.psumr_eq0P F _ predT (fun i => x 0 i * x^T i 0).
+have H0 : forall i, i \in index_enum (ordinal_finType n) -> x ord0 i * x^T i ord0 = 0.
+  have := @Num.Theory.psumr_eq0P F _ predT (fun i => x ord0 i * x^T i ord0).
   move=> P i _; apply: P => //.
   by move=> j _; rewrite mxE; exact: Num.Theory.sqr_ge0.
 apply/rowP => i; rewrite mxE.
@@ -243,16 +254,56 @@ set x := row i _.
 have Hx : x *m curv R R^T N = 0.
   by rewrite /x -row_mul mulmx_ker row0.
 apply: sqnorm_eq0.
-have : (x *m curv R R^T N *m x^T) 0 0 = 0 by rewrite Hx mul0mx mxE.
+have : (x *m curv R R^T N *m x^T) ord0 ord0 = 0 by rewrite Hx mul0mx mxE.
 rewrite /curv mulmxDr mulmx1 mulmxDl mxE !mulmxA.
 have -> : x *m R^T *m invmx N *m R *m x^T = (x *m R^T) *m invmx N *m (x *m R^T)^T.
   by rewrite trmx_mul trmxK !mulmxA.
 move=> H.
 have H1 := Npsd (x *m R^T).
-have H2 : 0 <= (x *m x^T) 0 0.
-  rewrite mxE; apply: Num.Theory.sumr_ge0 => j _; rewrite mxE; exact: Num.Theory.sqr_ge0.
-apply/eqP; rewrite Num.Theory.eq_le H2 andbT.
-by rewrite -H Num.Theory.ler_addr.
+have H2 : 0 <= (x *m x^T) ord0 ord0.
+  rewrite mxE; apply: sumr_ge0 => j _; by rewrite [_^T _ _]mxE -expr2 sqr_ge0.
+apply/eqP; rewrite eq_le H2 andbT.
+by rewrite -[X in _ <= X]H ler_addr.
 Qed.
 
 End Ordered.
+
+(* Diagonal noise with positive variances (the noise model of the generated cases): every
+   hypothesis is discharged, whatever the response.                                                 *)
+Section OrderedDiag.
+Variable F : realFieldType.
+Variables m n : nat.
+Variables (R : 'M[F]_(m,n)) (v : 'rV[F]_m).
+Hypothesis vpos : forall i, 0 < v ord0 i.
+
+Let w : 'rV[F]_m := \row_j (v ord0 j)^-1.
+
+Lemma diag_mul_inv : diag_mx v *m diag_mx w = 1%:M.
+Proof.
+rewrite mulmx_diag; apply/matrixP => i j; rewrite !mxE.
+case: eqP => // _; rewrite mulfV // ; exact: lt0r_neq0.
+Qed.
+
+Lemma diag_unit : diag_mx v \in unitmx.
+Proof. by case: (mulmx1_unit diag_mul_inv). Qed.
+
+Lemma invmx_diag : invmx (diag_mx v) = diag_mx w.
+Proof.
+by rewrite -[LHS]mulmx1 -[X in _ *m X]diag_mul_inv mulmxA (mulVmx diag_unit) mul1mx.
+Qed.
+
+Lemma diag_psd (y : 'rV[F]_m) : 0 <= (y *m invmx (diag_mx v) *m y^T) ord0 ord0.
+Proof.
+rewrite invmx_diag mul_mx_diag mxE; apply: sumr_ge0 => j _.
+rewrite [_^T _ _]mxE !mxE mulrAC -expr2; apply: mulr_ge0; first exact: sqr_ge0.
+by rewrite invr_ge0 ltW.
+Qed.
+
+Lemma curv_unit_diag : curv R R^T (diag_mx v) \in unitmx.
+Proof. exact: curv_unit_psd diag_psd. Qed.
+
+Lemma branches_agree_diag d :
+  mean_signal R R^T (diag_mx v) d = mean_data R R^T (diag_mx v) d.
+Proof. exact: branches_agree diag_unit curv_unit_diag. Qed.
+
+End OrderedDiag.
